@@ -734,6 +734,17 @@ def network_explicit(prefix=""):
               "nsi_indegree"):
         ex.append(Q("%s%s(tw=2)" % (P, m), P + m,
                     _meth(P + m, typical_weight=2.0)))
+    # both optional arguments together (each alone is listed above)
+    for m in ("nsi_degree", "nsi_indegree", "nsi_outdegree",
+              "nsi_local_cyclemotif_clustering",
+              "nsi_local_midmotif_clustering",
+              "nsi_local_inmotif_clustering",
+              "nsi_local_outmotif_clustering"):
+        ex.append(Q("%s%s(la,tw=2)" % (P, m), P + m,
+                    _meth(P + m, "la", typical_weight=2.0), needs=("W",)))
+    ex.append(Q(P + "nsi_degree(la,tw=4)", P + "nsi_degree",
+                _meth(P + "nsi_degree", "la", typical_weight=4.0),
+                needs=("W",)))
     ex += [
         Q(P + "link_attribute(la)", P + "link_attribute",
           _meth(P + "link_attribute", "la"), needs=("W",)),
